@@ -16,6 +16,8 @@ import GraphiqModel.Proofs.Circuit
 import GraphiqModel.Proofs.Clifford1
 import GraphiqModel.Proofs.DMCompileH
 import GraphiqModel.Proofs.DMCompileExec
+import GraphiqModel.Proofs.DMCompileRef
+import GraphiqModel.Proofs.HilbertBridgeVec
 namespace Graphiq.C01
 open Graphiq Graphiq.PRow Graphiq.Tab
 
@@ -193,6 +195,49 @@ example : ∀ op, op ∈ demo → op.WF 2 := by
   intro op h
   simp only [demo, List.mem_cons, List.mem_nil_iff, or_false] at h
   rcases h with h | h | h | h | h | h <;> subst h <;> simp [COp.WF, qIndex]
+
+/-! ### Both backends compute the state *textbook circuit semantics* defines
+
+   `DMRef.refRunH` (Proofs/DMCompileRef.lean) is a specification written independently of either backend's code: all
+   registers start in |0⟩, photons before emitters, `ρ ↦ UρU†` with the textbook unitaries (a wrapper = the matrix
+   product of its list), Born-rule Z-measurement (a certain outcome whatever the setting, otherwise the forced value or
+   the next drawn bit; `ρ ↦ Π_o ρ Π_o / tr(Π_o ρ)`; the register receives the outcome), classically controlled gates, and
+   measure-and-reset with the reset channel `|0⟩⟨0| ⊗ tr_c ρ`. -/
+
+open Graphiq.DMRef in
+/-- **The stabilizer backend yields exactly the textbook state and record** — every circuit, register mix, setting,
+    script (and it fails only where textbook semantics is undefined: a register index out of range). -/
+theorem stabilizer_backend_computes_textbook_state (ne np : Nat) (d : Det) (script : List Bool) (ops : List COp)
+    (hwf : ∀ op, op ∈ ops → op.WF np) :
+    refRunH ne np d script ops = (stabRun ne np d script ops).map (rstate (ne + np)) :=
+  refRun_eq_stab ne np d script ops hwf
+
+open Graphiq.DMRef Graphiq.DMH in
+/-- **The density-matrix backend yields exactly the textbook state and record** (same quantifier) -/
+theorem density_matrix_backend_computes_textbook_state (ne np : Nat) (d : Det) (script : List Bool) (ops : List COp)
+    (hwf : ∀ op, op ∈ ops → op.WF np) :
+    (dmRunH ne np d script ops).map ofH = refRunH ne np d script ops :=
+  refRun_eq_dm ne np d script ops hwf
+
+open Graphiq.DMRef Graphiq.Hilbert in
+/-- **A reset leaves the measured qubit in |0⟩**: whatever the state, after the reset of qubit `q` the projector
+    `|0⟩⟨0|_q` fixes it -/
+theorem reset_leaves_ket0 {n : Nat} (ρ : DMat n) (q : Nat) (hq : q < n) :
+    proj n (PRow.Zq q false) * refReset ρ q = refReset ρ q :=
+  refReset_in_ket0 ρ q hq
+
+open Graphiq.DMH Graphiq.Hilbert in
+/-- **State-vector view, global phase.**  The matrix both backends stand for after any circuit is `|ψ⟩⟨ψ|` for a unit
+    vector `ψ`, and `ψ` is determined up to a global phase: any two unit vectors with that projector satisfy `φ = c·ψ`,
+    `|c| = 1`.  (So comparing the backends "up to global phase" on state vectors is comparing these matrices exactly.) -/
+theorem compiled_state_is_a_state_vector_up_to_phase (ne np : Nat) (d : Det) (script : List Bool) (ops : List COp)
+    (hwf : ∀ op, op ∈ ops → op.WF np) (r : HState (ne + np)) (h : dmRunH ne np d script ops = some r) :
+    (∃ ψ : Bits (ne + np) → ℂ, r.ρ = outer ψ ∧ inner ψ ψ = 1) ∧
+    (∀ ψ φ : Bits (ne + np) → ℂ, r.ρ = outer ψ → r.ρ = outer φ → inner ψ ψ = 1 → inner φ φ = 1 →
+      ∃ c : ℂ, star c * c = 1 ∧ ∀ a, φ a = c * ψ a) := by
+  obtain ⟨h1, h2, h3⟩ := dm_result_is_pure_state ne np d script ops hwf r h
+  exact ⟨rank_one_of_projector_trace_one r.ρ h1 h2 h3,
+    fun ψ φ e1 e2 n1 n2 => outer_eq_phase ψ φ (e1.symm.trans e2) n1 n2⟩
 
 /-! ### Non-vacuity of `backends_agree`: a Bell pair, a Z-measurement and a classically controlled gate -/
 def bell : List COp :=
